@@ -78,6 +78,27 @@ Q14 == H(1, 4)
 \* uniform_discr(0, 1, 4): default weighting = cell volume 1/4
 D4 == Dis(P4, Tn(<<4>>, "f64", WC("TWConst", P2, Q14)), "factory")
 
+\* near-equal descriptors: interior node / end point / interval end / constant / exponent moved by 1-2 ulp
+G3i   == Grid(<<<<QI(0), QU(1, 2, 1), QI(1)>>>>, "")              \* interior node + 1 ulp (still "uniform" by allclose)
+G3i2  == Grid(<<<<QI(0), QU(1, 2, -2), QI(1)>>>>, "")
+G3e   == Grid(<<<<QI(0), H(1, 2), QU(1, 1, -1)>>>>, "")           \* last node - 1 ulp
+G4i   == Grid(<<<<H(1, 8), QU(3, 8, 1), H(5, 8), H(7, 8)>>>>, "")
+I01u  == Intv(<<QI(0)>>, <<QU(1, 1, 1)>>)                         \* [0, 1 + ulp]
+TW2c  == WC("TWConst", P2, QU(2, 1, 1))                           \* constant 2 + ulp
+TW2e  == WC("TWConst", QU(2, 1, 1), QI(2))                        \* exponent 2 + ulp
+PW2c  == WC("PWConst", P2, QU(2, 1, -1))
+THalf == Tn(<<3>>, "f64", WC("TWConst", P2, H(1, 2)))
+UNear == <<
+  G3i, G3i2, G3e, G4i, I01u, Intv(<<QU(0, 1, 1)>>, <<QI(1)>>),
+  Part(I01, G3i), Part(I01, G3e), Part(I01u, G3), Part(I01, G4i),
+  TW2c, TW2e, PW2c, WC("PWConst", QU(2, 1, 1), QI(2)),
+  Rn3w(TW2c), Rn3w(TW2e), Tn(<<3>>, "f64", WC("TWConst", P2, QU(1, 1, 1))),
+  Dis(Part(I01, G3i), THalf, ""), Dis(Part(I01, G3e), THalf, ""), Dis(Part(I01u, G3), THalf, ""),
+  Dis(Part(I01, G4i), Tn(<<4>>, "f64", WC("TWConst", P2, Q14)), ""),
+  Dis(P3nob, Tn(<<3>>, "f64", WC("TWConst", P2, QU(1, 2, 1))), ""),
+  PS(PW2c, <<Rn3, Rn3>>), PS(PW1, <<Rn3w(TW2c), Rn3w(TW2c)>>)
+>>
+
 UBase == <<
   \* ---- plain sets
   Cls0("EmptySet"), Cls0("UniversalSet"), RR, CC, ZZ, Str(3), Str(4),
@@ -170,7 +191,7 @@ UBig == <<
             Dis(P23, Tn(<<2, 3>>, "f64", WC("TWConst", P2, Q14)), "factory")>>)
 >>
 Big == IOEnv.ST_BIG = "1"
-U == IF Big THEN UBase \o UBig ELSE UBase
+U == IF Big THEN UBase \o UNear \o UBig ELSE UBase \o UNear
 
 (* ------------------------------ instances ------------------------------- *)
 RECURSIVE Inst(_, _)
@@ -217,7 +238,7 @@ C_Refines == oy = 0 \/ (CEq(X, Y) = AEq(X, Y))
 \* membership of an element of space X in space Y
 C_Contains == oy = 0 \/ ~(IsSpace(X.d) /\ IsSpace(Y.d)) \/ (ImplSpaceContains(Y.d, X.d, X.oid = Y.oid) = CEq(X, Y))
 \* derived-space constructors: layer C against layer A outside the open findings, which are real
-C_Derived == oy # 0 \/ ~IsSpace(X.d) \/ DerivedRefines(X.d)
+C_Derived == oy # 0 \/ ~IsSpace(X.d) \/ HasUlp(X.d) \/ DerivedRefines(X.d)
 OpenCellsAreReal ==
   /\ \E o \in 1..NO : LET s == Objects[o].d IN IsSpace(s) /\ \E c \in DerivedCases(s) :
         HasArrayW(s) /\ DtypeChange(c) /\ DerivedDiff(s, c, ImplDerived(s, c)) = {"raises"}
@@ -229,7 +250,7 @@ OpenOnce == (ox # 1 \/ oy # 0) \/ OpenCellsAreReal
 \* nothing hashes by raising any more
 C_NoRaise == oy # 0 \/ ~ImplHashRaises(X.d)
 
-BogusNoOpenCell == oy # 0 \/ ~IsSpace(X.d) \/ \A c \in DerivedCases(X.d) : DerivedDiff(X.d, c, ImplDerived(X.d, c)) = {}
+BogusNoOpenCell == oy # 0 \/ ~IsSpace(X.d) \/ HasUlp(X.d) \/ \A c \in DerivedCases(X.d) : DerivedDiff(X.d, c, ImplDerived(X.d, c)) = {}
 \* deliberately false, for the non-vacuity self-test (distinct objects never share a hash key)
 BogusDistinctHash == oy = 0 \/ X.oid = Y.oid \/ ImplHashKey(X.d) # ImplHashKey(Y.d)
 
@@ -237,7 +258,7 @@ BogusDistinctHash == oy = 0 \/ X.oid = Y.oid \/ ImplHashKey(X.d) # ImplHashKey(Y
 Export ==
   oy # 0 \/
   Serialize(ToJson([oid |-> X.oid, k |-> X.k, copy |-> X.copy, d |-> X.d,
-                    cases |-> IF IsSpace(X.d) /\ X.copy = 1 THEN DerivedCases(X.d) ELSE {}]) \o "\n", IOEnv.OUT_FILE,
+                    cases |-> IF IsSpace(X.d) /\ X.copy = 1 /\ ~HasUlp(X.d) THEN DerivedCases(X.d) ELSE {}]) \o "\n", IOEnv.OUT_FILE,
             [format |-> "TXT", charset |-> "UTF-8",
              openOptions |-> <<"WRITE", "CREATE", "APPEND">>]).exitValue = 0
 \* the export run does not expand pairs
